@@ -216,7 +216,7 @@ PROPS['C14'] = {
     'assumptions': [A_TOOLS, A_DEBUG, A_VSIGN_BOUND, A_LOG,
                     'interleavings need no exploration: the sign-level statement is per step from every state satisfying inv(), the bus-level statement is per step for every population of 1..4 signs with pairwise distinct addresses',
                     'modular step: the bus harness replaces VirtualSign::process_message by its contract (no reply and no change for a foreign address; any reply carrying the own address for an own-addressed message; no reply for unaddressed messages); that contract is what c14_foreign_and_idle_messages_change_nothing and c13_step_refines_spec establish'],
-    'explanation': 'C14 = sign-level frame condition (foreign-addressed messages and unaddressed data on a non-receiving sign change nothing and get no reply) + bus-level delivery/ reply discipline for 1..4 signs.',
+    'explanation': 'C14 = sign-level frame condition (foreign-addressed messages and unaddressed data on a non-receiving sign change nothing and get no reply) + bus-level delivery / reply discipline: for any population via the Verus unit of the extracted bus loop (bus_delivers, lemma_c14_bus), and for 1..4 signs via Kani (which alone covers "signs after the first responder are untouched").',
 }
 
 PROPS['C19']['kani'].append({'package': 'flipdot-testing', 'harnesses': [H('c19_virtual_sign_derives_dimensions', covers=2), H('c12_config_block_arbitrary_fields', covers=3)]})
@@ -334,7 +334,7 @@ PROPS['C13']['functions'] = [VSIGN_VERUS_FNS] + PROPS['C13']['functions']
 PROPS['C13']['assumptions'] = PROPS['C13']['assumptions'] + [A_VSIGN_VERUS, A_USIZE, A_COW, A_INTO,
     'UNBOUNDED part (Verus): (state after, reply) == step(state before, message) for the real process_message and each of its helpers, over the full abstract state (buffer CONTENTS, stored page images, any lengths); new() yields the blank state; step preserves "every stored image is a complete page of its size" (lemma_step_pages_complete) and the real representation invariant implies it (lemma_rep_pages_complete). Induction over the history is the usual argument (initial state + step), not a mechanised obligation']
 PROPS['C14']['verus'] = [{'tmpl': 'vsign.rs.tmpl', 'obligations': ['VirtualSign::process_message', 'lemma_c14_foreign_and_idle', 'VirtualSign::send_data', 'VirtualSign::data_chunks_sent', 'VirtualSignBus::process_message', 'lemma_c14_bus']}]
-PROPS['C14']['functions'] = [VSIGN_VERUS_FNS] + PROPS['C14']['functions']
+PROPS['C14']['functions'] = [VSIGN_VERUS_FNS, '<flipdot_testing::virtual_sign_bus::VirtualSignBus as SignBus>::process_message (Verus, extracted; for-loop over &mut Vec rewritten to iter_mut(), error type stand-in, debug! dropped)'] + PROPS['C14']['functions']
 PROPS['C14']['assumptions'] = PROPS['C14']['assumptions'] + [A_VSIGN_VERUS,
     'sign level, UNBOUNDED (Verus): process_message == step, and lemma_c14_foreign_and_idle: a message addressed elsewhere, a report / acknowledgement / unknown frame, or an unaddressed data message arriving at a sign that is not receiving leaves the full state unchanged and gets no reply; a reply carries the sign\'s own address',
     'bus level, UNBOUNDED in the population (Verus, added): the real <VirtualSignBus as SignBus>::process_message is extracted (its `for sign in &mut self.signs` loop under a loop invariant over the slice::IterMut prophecies) against bus_delivers: every sign up to and including the first responder has processed the message exactly as it would alone (step), none before it replied, the reply is that sign\'s reply, the bus never fails; nobody replies = every sign processed it and every sign is well formed again. lemma_c14_bus derives from that + the sign-level lemma, for ANY number of signs with distinct addresses: absent address / report / ack / unknown => no reply and nothing changes; unaddressed data => no reply, only receiving signs change; addressed to sign j => (state of j, reply) == step(j alone), no sign before j changes, and when j does not reply no other sign changes. NOT covered by the Verus unit (vstd has no specification for dropping a partly consumed IterMut): the signs AFTER the first responder are left untouched, and rep() on the reply path - that clause stays a Kani obligation over 1..4 signs',
